@@ -352,9 +352,14 @@ def run_scenario(s: Scn, glue=None):
 
 # ------------------------------------------------------------------ scenario generation
 def honest_shape(transport, cfg):
-    """lengths of the honest M2 and of its plaintext (deterministic keys => fixed bytes)"""
-    r = run_scenario(Scn("probe", transport, cfg, honest=True))
-    return len(r["m2"]), len(ref_encode([(T_ID, IDS[cfg][0]), (T_SIG, bytes(64))])), len(r["m4"])
+    """lengths of the honest M2, of its plaintext and of M4, from the reference accessory alone
+    (deterministic keys => the honest replies are fixed byte strings)"""
+    U = Universe("c01")
+    acc_id, ios_id = IDS[cfg]
+    acc = VerifyAccessory(U, acc_id, ACC_LTSK, ACC_EPH, ios_id, U.edpub(CTRL_LTSK))
+    _, d = acc.on_m1(ref_encode([(T_STATE, b"\x01"), (T_PK, U.xpub(CTRL_EPH).b)]))
+    m2 = ref_encode([(t, v.b) for t, v in d.build(U)])
+    return len(m2), len(U.tlv(d.sub_items).b), 3
 
 
 def gen_scenarios(tier, rnd):
